@@ -24,7 +24,7 @@ from axolotl.ecc.djbec import DjbECPublicKey
 
 ID = "C14"
 LEVEL = "exploration"
-RULE = ("generated histories of 2-14 operations over {connect, connection loss, answer policy for the next upload (result / error / "
+RULE = ("generated histories of 2-14 operations over {connect, connect that drops before the login completes, connection loss, answer policy for the next upload (result / error / "
         "lost), server key-count notification, restart, consume (a peer fetches a bundle and sends a first message), re-offer (the "
         "server hands an already consumed key to a second peer)} for one account started from nothing with batches of 6 keys and a "
         "refill threshold of 4, plus three registered peers; which of the keys on offer the server hands out is generated (first, any, the "
@@ -179,6 +179,13 @@ def _run(case, out, server, clients, hx):
         db = db_rows(hx, phone)
         if db is None:
             return True
+        for kid in list(consumed):
+            if kid in db["keys"] and db["keys"][kid][1] != offered.get(kid):
+                # the id of a consumed key has been given to a newly generated key (not uploaded yet): from here on it is that key
+                consumed.discard(kid)
+                confirmed.discard(kid)
+                offered.pop(kid, None)
+                out.label("id_of_consumed_key_reused")
         for kid, (sent, pub) in db["keys"].items():
             if sent != (kid in confirmed):
                 what = "marked_as_sent_without_confirmation" if sent else "confirmed_key_still_pending"
@@ -219,6 +226,13 @@ def _run(case, out, server, clients, hx):
                 db = db_rows(hx, phone)
                 cx.connect()
                 out.label("connect")
+        elif kind == "connect_nosuccess":
+            # the connection comes up but drops before the server's <success> arrives (whatever the server sends meanwhile is
+            # handled by a client that has not logged in)
+            if not cx.connected():
+                server.withhold_success.add(X)
+                cx.connect()
+                out.label("connect_without_success")
         elif kind == "disconnect":
             if cx.connected():
                 cx.post("peerclose")
@@ -352,7 +366,7 @@ def shrink_candidates(case):
 
 def script_strategy():
     sel = st.integers(0, 3)
-    op = st.one_of(st.just(["connect"]), st.just(["connect"]), st.just(["disconnect"]),
+    op = st.one_of(st.just(["connect"]), st.just(["connect"]), st.just(["disconnect"]), st.just(["disconnect"]), st.just(["connect_nosuccess"]),
                    st.tuples(st.just("policy"), st.sampled_from(["result", "result", "error", "drop"])).map(list),
                    st.just(["count"]), st.just(["restart"]), st.just(["restart"]),
                    st.tuples(st.just("consume"), sel, st.sampled_from([0, 0, 1, 3, -1, -1])).map(list),
@@ -369,6 +383,10 @@ def _enum_basic():
     yield {"sub": "history", "seed": 3, "ops": [["policy", "error"], ["connect"], ["restart"], ["policy", "result"], ["restart"], ["count"], ["consume", 0]]}
     yield {"sub": "history", "seed": 5, "ops": [["connect"], ["consume", 0, -1], ["count"], ["consume", 1, 1], ["consume", 2, -1], ["restart"], ["count"]]}
     yield {"sub": "history", "seed": 6, "ops": [["connect"], ["consume", 0, -1], ["consume", 1, -1], ["consume", 2, -1], ["restart"], ["count"], ["restart"]]}
+    yield {"sub": "history", "seed": 7, "initial_policy": "drop",
+           "ops": [["connect_nosuccess"], ["count"], ["disconnect"], ["policy", "result"], ["connect"], ["restart"]]}
+    yield {"sub": "history", "seed": 8, "ops": [["connect"], ["disconnect"], ["connect_nosuccess"], ["policy", "drop"], ["count"], ["disconnect"],
+                                                ["policy", "result"], ["connect"], ["consume", 0, 0]]}
     yield {"sub": "history", "seed": 4, "ops": [["connect"], ["policy", "drop"], ["count"], ["restart"], ["policy", "result"], ["restart"]]}
 
 
